@@ -4,6 +4,7 @@ CONSTANTS
   Pols <- PolsAll
   VTypes = {"voltage", "field", "power", "undefined"}
   Classes = {"base", "probe", "dipole", "system"}
+  Rot2 <- Rot2Some
 INVARIANT GroupSize
 INVARIANT Covariant
 INVARIANT AxesOrthonormal
